@@ -754,6 +754,27 @@ func blockHasCalls(b *ssa.BasicBlock) bool {
 
 // ---- R-C10-7: the retention that is judged is the retention that is replaced -----------------------------
 
+// sameReadValue: the same SSA value, or two reads of the same field of the same local struct (a resolved
+// target kept in a small struct: t.bucket, t.object) whose stored values agree.
+func sameReadValue(a, b ssa.Value) bool {
+	if a == b {
+		return true
+	}
+	if la, lb := loadedField(a), loadedField(b); la != "" && la == lb {
+		return true
+	}
+	fa, okA := a.(*ssa.Field)
+	fb, okB := b.(*ssa.Field)
+	if okA && okB && fa.X == fb.X && fa.Field == fb.Field {
+		return true
+	}
+	sa, sb := fieldSources(a), fieldSources(b)
+	if len(sa) == 1 && len(sb) == 1 && (sa[0] != a || sb[0] != b) {
+		return sa[0] == sb[0] || (sa[0] != a && sb[0] != b && sameReadValue(sa[0], sb[0]))
+	}
+	return false
+}
+
 func moreRetentionSameTarget(p *Program, r *Report) {
 	rule := "R-C10-7"
 	r.Rule(rule, "the overwrite rule is evaluated on the object that is written: in posix PutObjectRetention / PutObjectLegalHold the attribute read that feeds the decision and every store of that attribute address the same bucket/object values", 1)
@@ -775,7 +796,7 @@ func moreRetentionSameTarget(p *Program, r *Report) {
 		for _, rd := range reads {
 			for _, wr := range writes {
 				ra, wa := rd.Common().Args, wr.Common().Args
-				if ra[1] != wa[1] || ra[2] != wa[2] {
+				if !sameReadValue(ra[1], wa[1]) || !sameReadValue(ra[2], wa[2]) {
 					ok = false
 				}
 			}
